@@ -454,8 +454,8 @@ class PathCond:
                 if p not in need or (p, x) in back or p not in memo:
                     continue
                 a = self.edge_atom(p, lab)
-                if a is not None and a[0][0] == "local":
-                    a = None  # drop flags and other unresolved multi-definition locals
+                if a is not None and a[0][0] in ("local", "const"):
+                    a = None  # drop flags, unresolved multi-definition locals, constant conditions
                 if a is not None and relevant is not None and not relevant(a[0], a[1]):
                     a = None
                 for cs in memo[p]:
